@@ -3,7 +3,8 @@
 For every operation under test and every pre-state: pass 1 records the system calls of the operation
 window under strace and compares them with the model's canonical trace; then the victim is killed at
 each call, and each call is made to fail (ENOSPC / EIO); every resulting directory is reopened with
-the real replica.New.  Meta.Corr.check_vcase evaluates, per run, the C08 oracles on the
+the real replica.New.  A victim whose call failed goes on: the directory is kept aside, Info() / Chain() /
+ListDisks() are recorded, a regular Close follows, and the directory is reopened again.  Meta.Corr.check_vcase evaluates, per run, the C08 oracles on the
 implementation's observations and compares directory, result and reopen observation with the model.
 """
 import json, os, sys
@@ -94,11 +95,28 @@ def shape_of(vc, run):
     return None
 
 
+def shape_of_cont(vc, run):
+    """known-finding shape of a run whose process went on after the failing call (the oracle failed after the Close)"""
+    if run["errno"] is None or vc["op"]["op"] != "revert":
+        return None
+    ents = vc["winents"]
+    j = run["j"]
+    committed = any(ents[k]["canon"] == (5, 5, 4) for k in range(j))           # rename(volume.meta.tmp, volume.meta) before it
+    if committed and run["res"].get("res") == "err":
+        # the failed call comes after the commit of the new head: rmDisk(oldHead) or the Reload
+        return "revert-fails-after-commit"
+    return None
+
+
 KNOWN_TEXT = {
     "encode-write-error": "encodeToFile ignores a failed write of <file>.tmp (tests err instead of lastErr): the operation "
                           "goes on and renames an empty metadata file into place",
     "createdisk-sync-after-commit": "createDisk: when the directory sync after rename(volume.meta.tmp, volume.meta) fails, the "
                                     "deferred clean-up removes the new head that volume.meta already names",
+    "revert-fails-after-commit": "revertDisk: when a call fails after volume.meta was switched to the new head (in rmDisk(oldHead) or in the "
+                                 "Reload), Revert returns an error and the Server keeps the old Replica; its next metadata update (Close) "
+                                 "points volume.meta back at the old head, whose files are (partly) unlinked: the reopen fails or creates an "
+                                 "empty head, acknowledged writes are gone",
 }
 
 
@@ -109,6 +127,14 @@ def describe(vc, run):
                 call_index=run["j"], call=e["text"][:160], model_call_index=run["mi"],
                 result=run["res"].get("res"), error=run["res"].get("err", "")[:200],
                 reopen=dict(res=run["obs"][1].get("res"), err=run["obs"][1].get("err", "")[:200], chain=run["obs"][1].get("chain")),
+                went_on=None if not run.get("obs2") else dict(
+                    memory=dict(chain=run["res"]["mem"].get("chain"), chainerr=run["res"]["mem"].get("chainerr", False),
+                                info=run["res"]["mem"].get("info")),
+                    close=run["res"].get("cres"), close_err=run["res"].get("cerr", "")[:160],
+                    reopen=dict(res=run["obs2"][1].get("res"), err=run["obs2"][1].get("err", "")[:200], chain=run["obs2"][1].get("chain")),
+                    oracle=run.get("c_oracle"),
+                    model_vs_impl=dict(memory=metalib.FIELD.get(run.get("c_memdiff")), directory_after_close=metalib.FIELD.get(run.get("c_ddiff")),
+                                       reopen=metalib.FIELD.get(run.get("c_odiff")), results_agree=run.get("c_res_agree"))),
                 model_vs_impl=dict(directory_after_fault=metalib.FIELD.get(run.get("ddiff")), reopen=metalib.FIELD.get(run.get("odiff")),
                                    result_agrees=run.get("res_agree"), model_side=run.get("mside"), impl_side=run.get("iside")))
 
@@ -148,8 +174,15 @@ def run_plan(ctx, metabin, victim, vcases, tag="v", only=None):
             if not r["oracle"]:
                 sh = shape_of(vc, r)
                 (known if sh else concrete).append(dict(kind="oracle", vc=vc, run=r, shape=sh))
+            elif r.get("c_oracle") is False:
+                # the process went on after the failed call: its Close failed, or what a restarted process finds afterwards
+                # is neither the old nor the new view
+                sh = shape_of_cont(vc, r)
+                (known if sh else concrete).append(dict(kind="oracle", vc=vc, run=r, shape=sh, cont=True))
             elif info["trace_ok"] and (r["ddiff"] or r["odiff"] or not r["res_agree"] or r["mside"] != r["iside"]):
                 drift.append(dict(kind="run", vc=vc, run=r))
+            elif info["trace_ok"] and "c_oracle" in r and (r["c_memdiff"] or r["c_ddiff"] or r["c_odiff"] or not r["c_res_agree"]):
+                drift.append(dict(kind="run", vc=vc, run=r, cont=True))
     return results, concrete, known, drift
 
 
@@ -172,8 +205,8 @@ def shrink_pre(ctx, metabin, victim, item):
                 metalib.eval_vcases(ctx, [v2], res, tag="shre%d_%d" % (rounds, i))
             except Exception:
                 continue
-            same = [r for r in res[0]["runs"] if "oracle" in r and not r["oracle"] and (r["errno"] is None) == (en is None)
-                    and shape_of(v2, r) is None]
+            same = [r for r in res[0]["runs"] if "oracle" in r and (not r["oracle"] or r.get("c_oracle") is False)
+                    and (r["errno"] is None) == (en is None) and shape_of(v2, r) is None and shape_of_cont(v2, r) is None]
             if same:
                 cur = cand
                 best = (v2, same[0])
@@ -206,8 +239,8 @@ def main(ctx, replay=None):
         print("trace agrees with the model:", res[0]["trace_ok"], res[0].get("trace_diff", ""))
         for r in sorted(res[0]["runs"], key=lambda r: (r["errno"] is not None, r["j"])):
             print(json.dumps(describe(vc, r)))
-            print("   oracle:", r.get("oracle"), " known shape:", shape_of(vc, r))
-            if r.get("oracle") is False:
+            print("   oracle:", r.get("oracle"), " after going on:", r.get("c_oracle"), " known shape:", shape_of(vc, r) or shape_of_cont(vc, r))
+            if r.get("oracle") is False or r.get("c_oracle") is False:
                 bad = True
         print("verdict:", "oracle fails" if bad else "oracle holds")
         ctx.cleanup()
@@ -297,6 +330,7 @@ def main(ctx, replay=None):
                  model_impl_differences=len(drift), oracle_failures=len(concrete), known_finding_runs=len(known),
                  input_distribution=kinds,
                  coverage_flags=dict(kill_before_commit=between, kill_after_commit=after, error_reported_over_new_state=errpost,
+                                     went_on_after_failure=sum(1 for i in results for r in i["runs"] if "c_oracle" in r),
                                      calls_per_operation={("%s@%s" % (vc["kind"], vc["prename"])): i["nsys"] for vc, i in zip(vcases, results)}),
                  theorems=proof.get("theorems", []), exhaustive=False)
     samples = []
